@@ -167,19 +167,169 @@ Theorem internal_runs_bounded : forall ls s s', drained s -> Forall (fun l => in
   run s ls = Some s' -> drained s' /\ length ls + mu s' <= mu s.
 Proof.
   intro ls. induction ls as [|l r IH]; intros s s' Hd Hf H; simpl in H.
-  - inversion H; subst. split; auto. simpl. lia.
+  - inversion H; subst. split; [auto|simpl; lia].
   - inversion Hf as [|l' r' Hl Hr]; subst. destruct (lstep s l) as [s1|] eqn:E; [|discriminate].
     destruct (internal_step _ _ _ Hd Hl E) as [Hd1 Hm].
     destruct (IH _ _ Hd1 Hr H) as [Hd' Hb]. split; auto. simpl. lia.
 Qed.
 Print Assumptions internal_runs_bounded.
 
+Lemma return_sets_result : forall s l s', internal l = true -> lstep s l = Some s' ->
+  serve s <> SNone -> serve s' = SNone -> exists r, serve s = SWait r /\ l = LServe /\ result s' = Some r.
+Proof.
+  intros s l s' Hi H Hs Es'. destruct l; try discriminate.
+  - simpl in H. destruct (serve s) eqn:Es; try discriminate; unfold upd_serve in H;
+      try (inversion H; subst s'; discriminate).
+    + destruct (listener s); inversion H; subst s'; discriminate.
+    + destruct (running s); [destruct (tmo s)|]; inversion H; subst s'; discriminate.
+    + destruct (cur_obj s) as [o|]; [destruct (lo_open o)|]; inversion H; subst s'; discriminate.
+    + destruct (Nat.eqb _ _); inversion H; subst s'; discriminate.
+    + destruct (running s); inversion H; subst s'; discriminate.
+    + destruct (listener s) as [i|]; [destruct (close_obj s i)|]; inversion H; subst s'; discriminate.
+    + destruct (Nat.eqb _ _); [|discriminate]. inversion H; subst s'. eauto.
+  - simpl in H. destruct (serve s); try discriminate. unfold upd_serve in H.
+    destruct (cur_obj s) as [o|]; [destruct (lo_open o); [discriminate|]|]; inversion H; subst s'; discriminate.
+  - apply handler_exit_inv in H. destruct H as [_ [_ E]]. subst s'. simpl in Es'. congruence.
+Qed.
+
 (* ... and an internal execution to the return exists: the serving call returns *)
-Theorem returns : forall s, drained s ->
+Theorem returns : forall s, drained s -> serve s <> SNone ->
   exists ls s', Forall (fun l => internal l = true) ls /\ run s ls = Some s' /\ serve s' = SNone /\
                 length ls <= mu s /\ result s' <> None.
 Proof.
   intro s. remember (mu s) as n eqn:En. revert s En.
-  induction n as [n IH] using lt_wf_ind. intros s En Hd.
-  destruct (spc_eq_none (serve s)) as [Es|Es].
-Abort.
+  induction n as [n IH] using lt_wf_ind. intros s En Hd Hs.
+  destruct (internal_enabled s Hd Hs) as [l [s1 [Hl H1]]].
+  destruct (internal_step _ _ _ Hd Hl H1) as [Hd1 Hm].
+  destruct (serve s1) eqn:Es1.
+  1: { exists [l], s1. destruct (return_sets_result _ _ _ Hl H1 Hs Es1) as [r [_ [_ Hr]]].
+       repeat split; auto.
+       - simpl. rewrite H1. reflexivity.
+       - simpl. lia.
+       - rewrite Hr. discriminate. }
+  all: assert (Hs1 : serve s1 <> SNone) by (rewrite Es1; discriminate);
+    destruct (IH (mu s1) ltac:(lia) s1 eq_refl Hd1 Hs1) as [ls [s' [Hf [Hr [Es' [Hlen Hres]]]]]];
+    exists (l :: ls), s'; repeat split; auto; [simpl; rewrite H1; exact Hr|simpl; lia].
+Qed.
+Print Assumptions returns.
+
+Lemma drained_of_wreach : forall s, wreach s -> shut s = true ->
+  (forall c, conn_st s c <> CServed) -> (forall c, holder (serve s) = Some c -> conn_st s c = CEnded) ->
+  drained s.
+Proof.
+  intros s Hw Hs H1 H2. pose proof (wreach_Inv _ Hw) as HI. constructor; auto. apply (i_shut _ HI Hs).
+Qed.
+
+(* After a completed Shutdown, once every accepted connection has ended, the serving call returns
+   within 10 + (number of handlers still to exit) of its own and the handlers' steps. *)
+Theorem returns_after_shutdown : forall s, wreach s -> shut s = true -> serve s <> SNone ->
+  (forall c, conn_st s c <> CServed) -> (forall c, holder (serve s) = Some c -> conn_st s c = CEnded) ->
+  exists ls s', Forall (fun l => internal l = true) ls /\ run s ls = Some s' /\ serve s' = SNone /\
+                length ls <= 10 + live s /\ result s' <> None.
+Proof.
+  intros s Hw Hs Hn H1 H2. destruct (returns s (drained_of_wreach s Hw Hs H1 H2) Hn) as [ls [s' [Hf [Hr [Es [Hl Hres]]]]]].
+  exists ls, s'. repeat split; auto. pose proof (mu_bound s). lia.
+Qed.
+Print Assumptions returns_after_shutdown.
+
+(* and no schedule of internal steps can avoid it: any internal execution from s has at most mu s steps,
+   and while the call has not returned some internal step is enabled (internal_enabled) *)
+Theorem no_internal_divergence : forall s ls s', wreach s -> shut s = true ->
+  (forall c, conn_st s c <> CServed) -> (forall c, holder (serve s) = Some c -> conn_st s c = CEnded) ->
+  Forall (fun l => internal l = true) ls -> run s ls = Some s' ->
+  length ls <= 10 + live s /\
+  (serve s' <> SNone -> exists l s'', internal l = true /\ lstep s' l = Some s'').
+Proof.
+  intros s ls s' Hw Hs H1 H2 Hf Hr. pose proof (drained_of_wreach s Hw Hs H1 H2) as Hd.
+  destruct (internal_runs_bounded ls s s' Hd Hf Hr) as [Hd' Hb]. split.
+  - pose proof (mu_bound s). lia.
+  - intro Hn. apply internal_enabled; auto.
+Qed.
+Print Assumptions no_internal_divergence.
+
+(* the hypotheses are satisfiable: Shutdown while blocked in Accept with one handler still to exit *)
+Definition drained_trace : list label :=
+  [LBind true; LStartDoListen false; LServe; LServe; LServe; LConnect; LAcceptConn; LServe; LServe; LServe;
+   LServe; LShutdown; LEnd 0].
+
+Example drained_demo : exists s, wrun l_init drained_trace = Some s /\ drained s /\ serve s = SAccept /\ mu s = 5 /\
+  exists s', run s [LAcceptClosed; LServe; LServe; LHandlerExit 0; LServe] = Some s' /\
+             serve s' = SNone /\ result s' = Some RNilRet.
+Proof.
+  eexists. split; [vm_compute; reflexivity|]. split; [|split; [reflexivity|split; [reflexivity|]]].
+  - apply drained_of_wreach.
+    + apply (wrun_wreach drained_trace l_init); [apply wr_init|vm_compute; reflexivity].
+    + reflexivity.
+    + intro c. unfold conn_st. simpl. destruct c as [|[|c]]; discriminate.
+    + simpl. discriminate.
+  - eexists. split; [vm_compute; reflexivity|]. simpl. auto.
+Qed.
+
+(* ================= the idle timeout returns ================= *)
+Theorem timeout_returns : forall s, wreach s -> serve s = STimeout -> conncounter s = 0 ->
+  exists s', run s [LServe; LServe; LServe] = Some s' /\ serve s' = SNone /\ result s' = Some RTimeoutErr /\
+             listener s' = None /\ running s' = false.
+Proof.
+  intros s Hw Es Hc.
+  pose proof (I1_counter s Hw) as H1. pose proof (I1_wg s Hw) as H2. rewrite Es in H1, H2. simpl in H1, H2.
+  assert (Hwg : wg s = 0) by lia.
+  unfold run. simpl lstep at 1. rewrite Es, Hc. simpl Nat.eqb. cbv iota.
+  unfold upd_serve. simpl lstep at 1. fields.
+  destruct (listener s) as [i|].
+  - change (close_obj _ i) with (set_nth i dobj (objs s), drop_all (qof (objs s) i) (conns s)).
+    cbv beta iota. simpl lstep. fields. rewrite Hwg. simpl. eexists. repeat split; reflexivity.
+  - simpl lstep. fields. rewrite Hwg. simpl. eexists. repeat split; reflexivity.
+Qed.
+Print Assumptions timeout_returns.
+
+(* under any interleaving with the environment: once the timeout is decided with wg = 0, every step keeps the
+   call on its way out, its own step is always enabled, and the result is RTimeoutErr *)
+Definition tpath (s : lstate) : Prop :=
+  (serve s = STeardown RTimeoutErr \/ serve s = SWait RTimeoutErr) /\ wg s = 0.
+
+Theorem timeout_decided : forall s s', wreach s -> serve s = STimeout -> conncounter s = 0 ->
+  lstep s LServe = Some s' -> tpath s'.
+Proof.
+  intros s s' Hw Es Hc H. pose proof (I1_counter s Hw) as H1. pose proof (I1_wg s Hw) as H2.
+  rewrite Es in H1, H2. simpl in H1, H2.
+  simpl in H. rewrite Es, Hc in H. simpl in H. inversion H; subst s'. unfold tpath. simpl. split; auto. lia.
+Qed.
+
+Theorem tpath_step : forall s l s', tpath s -> lstep s l = Some s' ->
+  tpath s' \/ (serve s' = SNone /\ result s' = Some RTimeoutErr).
+Proof.
+  intros s l s' [Hp Hw] H. unfold tpath. destruct l; simpl in H.
+  - destruct (running s); [|destruct ok]; inversion H; subst; auto.
+  - destruct Hp as [E|E]; rewrite E in H; discriminate.
+  - destruct Hp as [E|E]; rewrite E in H; discriminate.
+  - destruct Hp as [E|E]; rewrite E in H.
+    + left. destruct (listener s) as [i|]; [destruct (close_obj s i)|]; inversion H; subst s'; fields; auto.
+    + rewrite Hw in H. simpl in H. inversion H; subst s'. right. auto.
+  - destruct Hp as [E|E]; rewrite E in H; discriminate.
+  - destruct Hp as [E|E]; rewrite E in H; discriminate.
+  - destruct Hp as [E|E]; rewrite E in H; discriminate.
+  - left. destruct (listener s) as [i|]; [destruct (close_obj s i)|]; inversion H; subst s'; fields; auto.
+  - left. destruct (listener s) as [i|]; [destruct (lo_open _)|]; inversion H; subst s'; fields; auto.
+  - left. destruct (conn_st s c); try discriminate; inversion H; subst s'; fields; auto.
+  - left. change (lstep s (LHandlerExit c) = Some s') in H. apply handler_exit_inv in H.
+    destruct H as [_ [_ E]]. subst s'. fields. rewrite Hw. auto.
+Qed.
+Print Assumptions tpath_step.
+
+Theorem tpath_enabled : forall s, tpath s -> exists s', lstep s LServe = Some s' /\ rank (serve s') < rank (serve s).
+Proof.
+  intros s [[E|E] Hw]; simpl; rewrite E.
+  - destruct (listener s) as [i|]; [destruct (close_obj s i)|]; eexists; split; try reflexivity; simpl; lia.
+  - rewrite Hw. simpl. eexists; split; try reflexivity; simpl; lia.
+Qed.
+Print Assumptions tpath_enabled.
+
+Theorem timeout_result : forall s s', crun s s' -> tpath s -> serve s' = SNone -> result s' = Some RTimeoutErr.
+Proof.
+  intros s s' H. induction H as [s|s l s1 s2 Hs Hok Hst Hc IH]; intros Hp Es.
+  - destruct Hp as [[E|E] _]; congruence.
+  - destruct (tpath_step _ _ _ Hp Hst) as [Hp1|[E1 Hr]].
+    + auto.
+    + inversion Hc; subst; [auto|congruence].
+Qed.
+Print Assumptions timeout_result.
